@@ -521,6 +521,37 @@ func (ip *Interp) JoinVal(a, b Val) Val {
 			if x.K == TriTop && y.K == TriTop && x.Key != "" && x.Key == y.Key && x.Neg == y.Neg {
 				return x
 			}
+			// a constant on one side and a condition on the other of a named branch:
+			// `a && b` (false where a fails, b where it holds), `a || b` likewise
+			if ip.gateExact && (x.K == TriTop) != (y.K == TriTop) {
+				if g := ip.In.Conds[ip.gate]; g != nil {
+					cst, other, cstOnTrue := x, y, !ip.gateSwap
+					if y.K != TriTop {
+						cst, other, cstOnTrue = y, x, ip.gateSwap
+					}
+					if other.Cmp != nil || other.Key != "" || len(other.Conj) > 0 {
+						gg := *g
+						gg.K = TriTop
+						if cstOnTrue {
+							gg.Neg = !gg.Neg // the condition under which `other` is the value
+						}
+						// value = gg ? other : cst
+						flat := func(b *Bool) []*Bool {
+							if len(b.Conj) > 0 && !b.Neg {
+								return b.Conj
+							}
+							return []*Bool{b}
+						}
+						neg := func(b *Bool) *Bool { c := *b; c.Neg = !c.Neg; return &c }
+						if cst.K == TriF {
+							// gg && other
+							return &Bool{K: TriTop, Conj: append(append([]*Bool{}, flat(&gg)...), flat(other)...)}
+						}
+						// !gg || other  =  !(gg && !other)
+						return &Bool{K: TriTop, Neg: true, Conj: append(append([]*Bool{}, flat(&gg)...), flat(neg(other))...)}
+					}
+				}
+			}
 			// true on one side and false on the other of a named branch: the result
 			// is that branch's condition itself (or its negation)
 			if ip.gateExact && x.K != TriTop && y.K != TriTop && x.K != y.K {
